@@ -615,9 +615,9 @@ Qed.
 (* ------------------------------------------------------------------------------------------- non-vacuity *)
 
 Definition o0 : opts := mkOpts true false false false false false false false false false false false 0 0 false [] false false false.
-Definition ds_ok : diskscan := mkDS 3 0 0 0 0 false.
-Definition ds_gone : diskscan := mkDS 0 0 0 4 0 false.
-Definition ds_zero1 : diskscan := mkDS 3 0 0 0 1 true.
+Definition ds_ok : diskscan := mkDS 3 0 0 0 0 0 0 false.
+Definition ds_gone : diskscan := mkDS 0 0 0 4 0 2 3 false.
+Definition ds_zero1 : diskscan := mkDS 3 0 0 0 1 0 0 true.
 Definition p0 (disks : list diskscan) (pblocks : list N) : pre :=
   mkPre true true 2 2 true true false false false false 0 disks true 9 7 [true; true] [true; true] pblocks pblocks [false; true] [false; true] false [0; 1] false false 0 false false true
         [] [] [false; false] [] true [].
@@ -749,3 +749,15 @@ Proof. split; simpl; [lia | tauto]. Qed.
 Lemma lock_file_unlink_refuted :
   length (ls_holders (frun ls0 [FTry 1; FFinish 1; FTry 2; FUnlink; FTry 3])) = 2%nat.
 Proof. vm_compute. reflexivity. Qed.
+
+(* scan.c:1837-1841: the all-missing / all-rewritten rule looks at equal, move, restore, remove, change only: whatever new files
+   or copies appeared on the disk (insert and copy counters) does not matter *)
+Lemma empty_trigger_ignores_new_files : forall e m r rm ch i1 c1 i2 c2 z1 z2,
+  empty_trigger_disk (mkDS e m r rm ch i1 c1 z1) = empty_trigger_disk (mkDS e m r rm ch i2 c2 z2).
+Proof. reflexivity. Qed.
+
+Lemma empty_trigger_disk_iff : forall d, empty_trigger_disk d = true <->
+  ds_equal d = 0 /\ ds_move d = 0 /\ ds_restore d = 0 /\ (ds_remove d <> 0 \/ ds_change d <> 0).
+Proof.
+  intros d. unfold empty_trigger_disk, is0. rewrite !andb_true_iff, negb_true_iff, andb_false_iff, !N.eqb_eq, !N.eqb_neq. tauto.
+Qed.
